@@ -340,6 +340,14 @@ func hasDeepCopyMethod(input types.Type) bool {
 		if res.Len() != 0 {
 			continue
 		}
+		// the method is handed a pointer to a struct, and a slice or map as it is
+		dst := input
+		if _, isStruct := input.Underlying().(*types.Struct); isStruct {
+			dst = types.NewPointer(input)
+		}
+		if !types.AssignableTo(dst, sig.Params().At(0).Type()) {
+			continue
+		}
 		return true
 	}
 	return false
